@@ -318,7 +318,10 @@ def read_patch_ids(cache_directory: Path) -> list[int]:
     path = cache_directory / PATCH_INFO_FILE
     if not path.exists():
         raise InconsistentPatchesError("patch info file not found")
-    return np.fromfile(path, dtype=PATCH_ID_DTYPE).tolist()
+    patch_ids = np.fromfile(path, dtype=PATCH_ID_DTYPE).tolist()
+    if len(patch_ids) == 0:  # e.g. catalog creation interrupted while writing
+        raise InconsistentPatchesError("patch info file is empty")
+    return patch_ids
 
 
 def load_patches(
